@@ -3,6 +3,7 @@
    cryptographic facts outside Coq; what is logic is proved here, what is run time is observed
    by the correspondence job c07).
    Only statements, `exact`, `Check` pins, `Print Assumptions` and non-vacuity examples. *)
+From MLA Require Import Limit.
 From MLA Require Import Base Gcm GcmProofs Ecies EciesGcm Inst.
 From MLA.Concrete Require Import Ghash.
 From MLAGen Require Src.
@@ -193,6 +194,7 @@ Theorem C07_flush_emits_nothing : forall s s', ew_flush s = Ok s' -> s' = s.
 Proof. exact flush_emits_nothing. Qed.
 (* whole archive: any writer calls (flush anywhere), any cuts between the layers *)
 Theorem C07_body_is_keystream_masked :
+  (* LIMIT is the bincode limit of the header, of the SizesInfo footer and of the archive footer *)
   forall CHUNK CIPHERBUF BLOCK LIMIT FNMAX TS TC TA TE H order pubk dh kdf wenc wtag ksf tagf, 0 < CHUNK ->
   forall cfg cut_top cut_mid ops a,
     archive_write CHUNK CIPHERBUF BLOCK LIMIT FNMAX TS TC TA TE H order pubk dh kdf wenc wtag ksf tagf
@@ -202,7 +204,7 @@ Theorem C07_body_is_keystream_masked :
       dump_header LIMIT (to_persistent pubk dh kdf wenc wtag cfg) = Ok hdr /\
       a = hdr ++ enc_format CHUNK (ksf (wc_key cfg) (wc_nonce cfg)) (tagf (wc_key cfg) (wc_nonce cfg)) plain /\
       (wc_compress cfg = false ->
-       plain = w_out (fst (wrun FNMAX TS TC TA TE H order w_init (ops ++ [OFinalize])))).
+       plain = w_out (fst (wrun (LIM := LIMIT) FNMAX TS TC TA TE H order w_init (ops ++ [OFinalize])))).
 Proof. exact archive_body_masked. Qed.
 (* byte i of chunk j = plaintext byte XOR keystream (j, i) *)
 Theorem C07_enc_format_byte :
